@@ -8,7 +8,7 @@
    Field table (header name -> raw key, kind): Gen/MetaTable.v (regenerated).  Statements only; proofs in Email/EmailFacts.v. *)
 From Coq Require Import String List Arith NArith Bool Lia Permutation.
 Import ListNotations.
-Require Import Show VParse MetaTable MetaSpecTable MetaBase MetaBaseFacts EmailModel EmailFacts EmailRound EmailFinal EmailText EmailTextFacts.
+Require Import Show VParse MetaTable MetaSpecTable MetaBase MetaBaseFacts EmailModel EmailFacts EmailRound EmailFinal EmailText EmailTextFacts EmailRespell.
 Open Scope N_scope.
 
 (* 0. the header-name map and field kinds extracted from the working tree on this run are those of the core-metadata specification *)
@@ -240,3 +240,28 @@ Proof.
     + left. reflexivity.
     + right. intros x [<-|[]]. split; [|vm_compute; reflexivity]. intros c H. cbn [In] in H. repeat (destruct H as [<-|H]; [reflexivity|]). contradiction.
 Qed.
+
+(* 9. header names are case-insensitive PER LINE: header lists that agree line by line up to the capitalisation of the names leave the
+      same two dicts; hence the round trip for any capitalisation of every single line (C18_roundtrip spells all occurrences of a name alike) *)
+Theorem C18_spelling_per_line_irrelevant a b p : same_doc a b -> deq (post_email a p) (post_email b p).
+Proof. apply respell_irrelevant. Qed.
+Print Assumptions C18_spelling_per_line_irrelevant.
+Theorem C18_roundtrip_any_spelling r items : wf r -> same_doc (ser_items (fun n => n) r) items ->
+  snd (post_email items (ser_payload r)) = [] /\ forall k, lookup k (fst (post_email items (ser_payload r))) = lookup k r.
+Proof. apply roundtrip_any_spelling. Qed.
+Print Assumptions C18_roundtrip_any_spelling.
+(* 10. a Description header that the loop put into raw is a str (the PErr / body branches of C18_description_rule render it with [ustr_of],
+       whose default for other shapes is therefore never used) and then 'description' is not in unparsed *)
+Theorem C18_description_header_is_str items h : lookup k_description (fst (loop_result items)) = Some h ->
+  (exists x, values items k_description = [x] /\ h = RStr x /\ ustr_of h = UStr x) /\ lookup k_description (snd (loop_result items)) = None.
+Proof. intros L. destruct (loop_description_raw items h L) as [[x [V ->]] U]. split; eauto. Qed.
+Print Assumptions C18_description_header_is_str.
+Definition respell_check : bool :=
+  let a := [it "Name" "a" true; it "Classifier" "A" true; it "classifier" "B" true] in
+  let b := [it "NAME" "a" true; it "cLASSIFIER" "A" true; it "Classifier" "B" true] in
+  match post_email a (POk []), post_email b (POk []) with
+  | (ra, []), (rb, []) => dict_eqb ra rb && (length ra =? 2)%nat
+  | _, _ => false
+  end.
+Example C18_respell_nonvacuous : respell_check = true.
+Proof. vm_compute. reflexivity. Qed.
